@@ -175,9 +175,32 @@ const char* kExNames[] = {"inline", "pool", "strand(pool)", "stopped-inline", "p
 
 // ManualExecutor is single-threaded by contract: the client serialises Submit and Drain itself. Here the client is a
 // recursive lock (jobs running inside Drain may submit to the same executor) plus a drainer thread woken per submission.
+// The lock is a yaclib_std::mutex plus an owner/depth pair kept by the harness, because the happens-before engine of the
+// race build observes yaclib_std::mutex only (the recursive flavour has no hook).
+struct RecursiveLock {
+  yaclib_std::mutex mx;
+  int owner = -1, depth = 0;
+  void lock() {
+    const int me = sim::Fiber();
+    if (owner == me) {
+      ++depth;
+      return;
+    }
+    mx.lock();
+    owner = me;
+    depth = 1;
+  }
+  void unlock() {
+    if (--depth == 0) {
+      owner = -1;
+      mx.unlock();
+    }
+  }
+};
+
 struct LockedManual final : yaclib::IExecutor {
   yaclib::IExecutorPtr manual = yaclib::MakeManual();
-  yaclib_std::recursive_mutex rm;
+  RecursiveLock rm;
   yaclib_std::mutex m;
   yaclib_std::condition_variable cv;
   bool pending = false, stop = false;
